@@ -380,6 +380,15 @@ static void init_s3() {
         bad("utf8-above-10FFFF-in-attr-after-" + pn, "<a x='" + ps + "\xF5\x80\x80\x80'/>"); bad("utf8-above-10FFFF-in-comment-after-" + pn, "<a><!--" + ps + "\xF6\x80\x80\x80--></a>");
         good("utf8-10FFFF-after-" + pn, "<a>" + ps + "\xF4\x8F\xBF\xBF</a>");
     }
+    // a supplementary character (two UTF-16 units from one 4-byte sequence) around the end of the first 16384-unit char buffer fill, in every kind of
+    // construct: the decoder must hand the whole sequence over to the next fill when only one unit is left
+    for (int pad = 16374; pad <= 16384; pad++) {
+        std::string ps(pad, 'a'), pn = std::to_string(pad);
+        good("supplementary-text-at-fill-edge-" + pn, "<a>" + ps + "\xF0\x9F\x98\x80z</a>");
+        good("supplementary-attr-at-fill-edge-" + pn, "<a x='" + ps + "\xF0\x90\x80\x80'/>");
+        good("supplementary-comment-at-fill-edge-" + pn, "<a><!--" + ps + "\xF4\x8F\xBF\xBF--></a>");
+        good("supplementary-cdata-pi-at-fill-edge-" + pn, "<a><![CDATA[" + ps.substr(12) + "\xF0\x90\x80\x80]]><?p \xF0\x90\x80\x80?></a>");
+    }
     bad("charref-wraps-32-hex", "<a>&#x100000041;</a>"); bad("charref-wraps-32-dec", "<a>&#4294967361;</a>"); bad("charref-wraps-32-attr", "<a x='&#x100000041;'/>");
     bad("charref-wraps-32-supplementary", "<a>&#x200010000;</a>"); bad("charref-wraps-64-hex", "<a>&#x10000000000000041;</a>"); bad("charref-wraps-64-dec", "<a>&#18446744073709551681;</a>");
     bad("charref-wraps-32-via-entity", "<!DOCTYPE a [<!ENTITY e '&#38;#x100000041;'>]><a>&e;</a>", true);
